@@ -7,7 +7,16 @@ def decImps41 : List Sexp → Option (List Imp)
   | list [atom "use", m, list ss] :: xs => do pure ({ modname := ← m.toStr?, syms := some (← decStrs ss) } :: (← decImps41 xs))
   | _ => none
 
-/-- `(wf lower prog)` / `(wf deadns prog)` → `(wf <wf p> <wf (T p)>)` (`raised` when the model of dead-code removal raises);
+def encImp41 (i : Imp) : Sexp :=
+  list [atom "use", atom i.modname, match i.syms with | none => atom "none" | some ss => list (ss.map atom)]
+
+def decMembers41 : List Sexp → Option (List (List String × List Imp))
+  | [] => some []
+  | list [list u, list is] :: xs => do pure ((← decStrs u, ← decImps41 is) :: (← decMembers41 xs))
+  | _ => none
+
+/-- `(impm (used…) ((use …)…) (((used…) ((use …)…))…))` → `(imports host-imports (member-imports…))` after `sanitiseRoutine`;
+`(wf lower prog)` / `(wf deadns prog)` → `(wf <wf p> <wf (T p)>)` (`raised` when the model of dead-code removal raises);
 `(bare (used…) ((use m (sym…))…))` → `(bare <the model drops a USE without ONLY list>)`; oracle-only requests `(t …)` → `(nomodel)` -/
 def step : Sexp → Option Sexp
   | list [atom "wf", atom "lower", prog] => do
@@ -21,6 +30,10 @@ def step : Sexp → Option Sexp
   | list [atom "bare", list used, list imps] => do
       let u ← decStrs used; let is ← decImps41 imps
       pure (list [atom "bare", ofBool (bareModules (elimImports u is) != bareModules is)])
+  | list [atom "impm", list used, list imps, list members] => do
+      let sc : Scope1 := { used := ← decStrs used, imps := ← decImps41 imps, members := ← decMembers41 members }
+      let r := sanitiseRoutine sc
+      pure (list [atom "imports", list (r.imps.map encImp41), list (r.members.map fun m => list (m.2.map encImp41))])
   | list (atom "t" :: _) => some (list [atom "nomodel"])
   | _ => none
 
